@@ -206,3 +206,42 @@ package receiver
 // The modification time on the wire is a signed 32-bit count of seconds.
 //@ func (*receiver.Transfer).receiveFileEntry
 //@   at[C11] time.Unix: assert [mtime-signed-32] arg0 == modTime && arg1 == 0
+
+// ---------------------------------------------------------------- C15 / C14: file-list entry layout (protocol 27)
+// The decoder of one entry, specified against the byte stream of the
+// connection: which optional fields are on the wire (the conditions both ends
+// must agree on, C14), where each field sits, and which value it decodes to.
+// fl* read the transmit flags, md* the S_IFMT type of a mode.
+//@ spec func flSameName(fl: int): bool = bits32(fl, 5, 1) == 1
+//@ spec func flLongName(fl: int): bool = bits32(fl, 6, 1) == 1
+//@ spec func flSameTime(fl: int): bool = bits32(fl, 7, 1) == 1
+//@ spec func flSameMode(fl: int): bool = bits32(fl, 1, 1) == 1
+//@ spec func flSameUid(fl: int): bool = bits32(fl, 3, 1) == 1
+//@ spec func flSameGid(fl: int): bool = bits32(fl, 4, 1) == 1
+//@ spec func flSameRdev(fl: int): bool = bits32(fl, 2, 1) == 1
+//@ spec func mdIsDev(m: int): bool = bits32(m, 12, 4) == 2 || bits32(m, 12, 4) == 6
+//@ spec func mdIsSpecial(m: int): bool = bits32(m, 12, 4) == 1 || bits32(m, 12, 4) == 12
+//@ spec func mdIsLink(m: int): bool = bits32(m, 12, 4) == 10
+// A device number is on the wire for device nodes under --devices and for
+// fifos/sockets under --specials (rsync flist.c, protocols < 31).
+//@ spec func rdevOnWire(devices: bool, specials: bool, m: int): bool = devices && mdIsDev(m) || specials && mdIsSpecial(m)
+//@ spec func i32At(r: int, p: int): int = wrap32s(le32At(r, p))
+//@ spec func i64LenAt(r: int, p: int): int = ite(i32At(r, p) != -1, 4, 12)
+//@ spec func i64At(r: int, p: int): int = ite(i32At(r, p) != -1, i32At(r, p), wrap64s(le64At(r, p + 4)))
+//@ spec func fePName0(fl: int, p0: int): int = p0 + ite(flSameName(fl), 1, 0)
+//@ spec func feL2(r: int, fl: int, p0: int): int = ite(flLongName(fl), i32At(r, fePName0(fl, p0)), wireByte(r, fePName0(fl, p0)))
+//@ spec func fePLen(r: int, fl: int, p0: int): int = fePName0(fl, p0) + ite(flLongName(fl), 4, 1) + feL2(r, fl, p0)
+//@ spec func fePTime(r: int, fl: int, p0: int): int = fePLen(r, fl, p0) + i64LenAt(r, fePLen(r, fl, p0))
+//@ spec func fePMode(r: int, fl: int, p0: int): int = fePTime(r, fl, p0) + ite(flSameTime(fl), 0, 4)
+//@ spec func feMode(r: int, fl: int, p0: int, lastMode: int): int = ite(flSameMode(fl), lastMode, i32At(r, fePMode(r, fl, p0)))
+//@ spec func fePUid(r: int, fl: int, p0: int): int = fePMode(r, fl, p0) + ite(flSameMode(fl), 0, 4)
+//@ spec func fePGid(r: int, fl: int, p0: int, uid: bool): int = fePUid(r, fl, p0) + ite(uid && !flSameUid(fl), 4, 0)
+//@ spec func fePRdev(r: int, fl: int, p0: int, uid: bool, gid: bool): int = fePGid(r, fl, p0, uid) + ite(gid && !flSameGid(fl), 4, 0)
+//@ func (*receiver.Transfer).receiveFileEntry
+//@   modifies rsyncwire.CountingReader.BytesRead, ghost.rpos
+//@   ensures[C15] [length-field] err == nil ==> result.Length == i64At(data(rt.Conn.Reader), fePLen(data(rt.Conn.Reader), flags, old(select(ghost.rpos, data(rt.Conn.Reader)))))
+//@   ensures[C15] [mode-field] err == nil ==> result.Mode == feMode(data(rt.Conn.Reader), flags, old(select(ghost.rpos, data(rt.Conn.Reader))), old(last.Mode))
+//@   ensures[C15] [uid-field] err == nil && rt.Opts.PreserveUid ==> result.Uid == ite(flSameUid(flags), old(last.Uid), i32At(data(rt.Conn.Reader), fePUid(data(rt.Conn.Reader), flags, old(select(ghost.rpos, data(rt.Conn.Reader))))))
+//@   ensures[C15] [gid-field] err == nil && rt.Opts.PreserveGid ==> result.Gid == ite(flSameGid(flags), old(last.Gid), i32At(data(rt.Conn.Reader), fePGid(data(rt.Conn.Reader), flags, old(select(ghost.rpos, data(rt.Conn.Reader))), rt.Opts.PreserveUid)))
+//@   ensures[C15,C14] [rdev-field-present-as-sent] err == nil && rdevOnWire(rt.Opts.PreserveDevices, rt.Opts.PreserveSpecials, result.Mode) ==> result.Rdev == ite(flSameRdev(flags), old(last.Rdev), i32At(data(rt.Conn.Reader), fePRdev(data(rt.Conn.Reader), flags, old(select(ghost.rpos, data(rt.Conn.Reader))), rt.Opts.PreserveUid, rt.Opts.PreserveGid)))
+//@   ensures[C15,C14] [bytes-consumed-without-link-and-checksum] err == nil && !(rt.Opts.PreserveLinks && mdIsLink(result.Mode)) && !rt.Opts.AlwaysChecksum ==> select(ghost.rpos, data(rt.Conn.Reader)) == fePRdev(data(rt.Conn.Reader), flags, old(select(ghost.rpos, data(rt.Conn.Reader))), rt.Opts.PreserveUid, rt.Opts.PreserveGid) + ite(rdevOnWire(rt.Opts.PreserveDevices, rt.Opts.PreserveSpecials, result.Mode) && !flSameRdev(flags), 4, 0)
